@@ -29,6 +29,10 @@ fn main() {
         ("c01", "record") => yv::c01::record(&args),
         ("c01", "replay") => yv::c01::replay(&args),
         ("c01", "route") => yv::c01::route(&args),
+        ("c06", "record") => yv::c06::record(&args),
+        ("c06", "replay") => yv::c06::replay(&args),
+        ("c02", "record") => yv::c02::record(&args),
+        ("c02", "replay") => yv::c02::replay(&args),
         ("c18", "record") => yv::c18::record(&args),
         ("c19", "record") => yv::c19::record(&args),
         ("c19", "replay") => yv::c19::replay(&args),
